@@ -33,7 +33,7 @@ REACH = [
 ]
 STYLES = ["plaintext", "google", "numpydoc", "rest"]
 STEP_BUDGET_BASE = 60_000_000  # ~45x the constant cost of one run (1.3M function starts)
-STEP_BUDGET_PER_BYTE = 2500  # observed: < 300 steps per source byte
+STEP_BUDGET_PER_BYTE = 1000  # observed: < 300 steps per source byte
 
 
 def option_sets():
@@ -79,6 +79,10 @@ def kitchen_sink(rng, gated: set, idx: int) -> dict:
         for style in rng.sample(list(sn.DOC_SNIPPETS), 2):
             counter += 1
             parts.append(sn.DOC_SNIPPETS[style].replace("{n}", str(counter)) + "\n\n")
+        # docstring type expressions as people write them (every style; the configured style decides which are read)
+        for style in rng.sample(["numpydoc", "google", "rest"], 2):
+            counter += 1
+            parts.append(sn.doc_type_function(style, f"dt{counter}", [sn.doc_type(rng) for _ in range(5)]))
         files["src/" + "/".join(home) + f"/{name}.py"] = "".join(parts)
         mods.append((home, name, exported))
     # a test directory and a docs directory (only analysed with -tr)
